@@ -108,9 +108,9 @@ def _(a, rev):
     return Polygon(np.array([[a["ox"], a["oy"]], [a["ox"] + 1.0, a["oy"] + a["top"]], [a["ox"] + 4.0, a["oy"]]]))
 
 
-@spec("ShapeGroup", dict(length=POS, radius=POS))
+@spec("ShapeGroup", dict(length=POS, radius=POS, count=("enum", [2, 1, 3])))
 def _(a, rev):
-    return ShapeGroup([Rectangle(a["length"], 2.0), Circle(a["radius"])])
+    return ShapeGroup([Rectangle(a["length"], 2.0), Circle(a["radius"]), Circle(1.0)][:a["count"]])
 
 
 def _state_kw(a):
@@ -145,10 +145,11 @@ def _(a, rev):
     return st.SignalState(time_step=a["time_step"], horn=a["horn"], braking_lights=a["braking_lights"], indicator_left=False)
 
 
-@spec("Trajectory", dict(x0=R, x1=R, orientation=ANG))
+@spec("Trajectory", dict(x0=R, x1=R, orientation=ANG, count=("enum", [2, 1, 3])))
 def _(a, rev):
     return Trajectory(3, [st.KSState(time_step=3, position=arr(a["x0"], 1.0), orientation=a["orientation"], velocity=1.0, steering_angle=0.0),
-                          st.KSState(time_step=4, position=arr(a["x1"], 1.0), orientation=0.0, velocity=1.0, steering_angle=0.0)])
+                          st.KSState(time_step=4, position=arr(a["x1"], 1.0), orientation=0.0, velocity=1.0, steering_angle=0.0),
+                          st.KSState(time_step=5, position=arr(7.0, 1.0), orientation=0.0, velocity=1.0, steering_angle=0.0)][:a["count"]])
 
 
 @spec("Occupancy", dict(time_step=("int", 0, 100), cx=R, radius=POS))
@@ -156,9 +157,10 @@ def _(a, rev):
     return Occupancy(a["time_step"], Circle(a["radius"], arr(a["cx"], 0.0)))
 
 
-@spec("SetBasedPrediction", dict(cx=R, radius=POS))
+@spec("SetBasedPrediction", dict(cx=R, radius=POS, count=("enum", [2, 1, 3])))
 def _(a, rev):
-    return SetBasedPrediction(1, [Occupancy(1, Circle(a["radius"], arr(a["cx"], 0.0))), Occupancy(2, Rectangle(2.0, 1.0))])
+    return SetBasedPrediction(1, [Occupancy(1, Circle(a["radius"], arr(a["cx"], 0.0))), Occupancy(2, Rectangle(2.0, 1.0)),
+                                  Occupancy(3, Rectangle(3.0, 1.0))][:a["count"]])
 
 
 def _traj(x):
@@ -233,10 +235,10 @@ def _(a, rev):
     return TrafficSignElement(a["kind"], list(a["value"]))
 
 
-@spec("TrafficSign", dict(px=R, py=R, virtual=("bool",), first=("ids", IDS), value=("enum", [["30"], ["50"]])))
+@spec("TrafficSign", dict(px=R, py=R, virtual=("bool",), first=("ids", IDS), value=("enum", [["30"], ["50"]]), count=("enum", [1, 2])))
 def _(a, rev):
-    return TrafficSign(9, [TrafficSignElement(TrafficSignIDGermany.MAX_SPEED, list(a["value"]))], ids(a["first"], rev), arr(a["px"], a["py"]),
-                       a["virtual"])
+    els = [TrafficSignElement(TrafficSignIDGermany.MAX_SPEED, list(a["value"])), TrafficSignElement(TrafficSignIDGermany.STOP)][:a["count"]]
+    return TrafficSign(9, els[::-1] if rev else els, ids(a["first"], rev), arr(a["px"], a["py"]), a["virtual"])
 
 
 @spec("TrafficLightCycleElement", dict(state=("enum", COLS), duration=("int", 1, 100)))
@@ -244,10 +246,11 @@ def _(a, rev):
     return TrafficLightCycleElement(a["state"], a["duration"])
 
 
-@spec("TrafficLightCycle", dict(d0=("int", 1, 100), d1=("int", 1, 100), offset=("int", 0, 100), active=("bool",)),
+@spec("TrafficLightCycle", dict(d0=("int", 1, 100), d1=("int", 1, 100), offset=("int", 0, 100), active=("bool",), count=("enum", [2, 1, 3])),
       default=lambda: TrafficLightCycle())
 def _(a, rev):
-    return TrafficLightCycle([TrafficLightCycleElement(COLS[0], a["d0"]), TrafficLightCycleElement(COLS[1], a["d1"])], a["offset"], a["active"])
+    return TrafficLightCycle([TrafficLightCycleElement(COLS[0], a["d0"]), TrafficLightCycleElement(COLS[1], a["d1"]),
+                              TrafficLightCycleElement(COLS[2], 7)][:a["count"]], a["offset"], a["active"])
 
 
 @spec("TrafficLight", dict(px=R, py=R, d0=("int", 1, 100), direction=("enum", [TrafficLightDirection.ALL, TrafficLightDirection.LEFT]),
@@ -266,10 +269,11 @@ def _(a, rev):
     return IntersectionIncomingElement(30, ids(a["incoming"], rev), ids(a["right"], rev), ids(a["straight"], rev), ids(a["left"], rev), a["left_of"])
 
 
-@spec("Intersection", dict(incoming=("ids", IDS), crossings=("ids", IDS)),
+@spec("Intersection", dict(incoming=("ids", IDS), crossings=("ids", IDS), count=("enum", [2, 1, 3])),
       default=lambda: Intersection(40, [IntersectionIncomingElement(30, {1})]))
 def _(a, rev):
-    incs = [IntersectionIncomingElement(30, ids(a["incoming"], rev), {5}), IntersectionIncomingElement(31, {9}, {5})]
+    incs = [IntersectionIncomingElement(30, ids(a["incoming"], rev), {5}), IntersectionIncomingElement(31, {9}, {5}),
+            IntersectionIncomingElement(32, {10}, {5})][:a["count"]]
     return Intersection(40, incs[::-1] if rev else incs, ids(a["crossings"], rev))
 
 
@@ -279,16 +283,17 @@ def _(a, rev):
     return AreaBorder(1, np.array([[a["x"], 0.0], [a["x"] + 5.0, 1.0]]), idlist(a["adjacent"], False), a["marking"])
 
 
-@spec("Area", dict(x=R, types=("enum", [{AreaType.BUS_STOP}, {AreaType.PARKING}])), default=lambda: Area(2))
+@spec("Area", dict(x=R, types=("enum", [{AreaType.BUS_STOP}, {AreaType.PARKING}]), count=("enum", [1, 2])), default=lambda: Area(2))
 def _(a, rev):
-    return Area(2, [AreaBorder(1, np.array([[a["x"], 0.0], [a["x"] + 5.0, 1.0]]), [1])], set(a["types"]))
+    return Area(2, [AreaBorder(1, np.array([[a["x"], 0.0], [a["x"] + 5.0, 1.0]]), [1]),
+                    AreaBorder(2, np.array([[0.0, 0.0], [5.0, 1.0]]), [2])][:a["count"]], set(a["types"]))
 
 
-@spec("LaneletNetwork", dict(ly=R, px=R, successor=("ids", IDS)), default=lambda: LaneletNetwork())
+@spec("LaneletNetwork", dict(ly=R, px=R, successor=("ids", IDS), count=("enum", [2, 1])), default=lambda: LaneletNetwork())
 def _(a, rev):
     net = LaneletNetwork()
     las = [Lanelet(np.array([[0.0, a["ly"]], [10.0, a["ly"]]]), np.array([[0.0, 0.0], [10.0, 0.0]]), np.array([[0.0, -2.0], [10.0, -2.0]]), 1,
-                   successor=idlist(a["successor"], rev)), fx.straight_lanelet(2, 10.0, 0.0)]
+                   successor=idlist(a["successor"], rev)), fx.straight_lanelet(2, 10.0, 0.0)][:a["count"]]
     for la in (las[::-1] if rev else las):
         net.add_lanelet(la, rtree=False)
     net.add_traffic_sign(fx.sign(9, pos=(a["px"], 1.0)), set())
@@ -297,10 +302,11 @@ def _(a, rev):
 
 def _goal(a):
     return GoalRegion([st.CustomState(time_step=Interval(a["t_lo"], a["t_lo"] + 5), position=Rectangle(a["length"], 2.0),
-                                      orientation=AngleInterval(-1.0, a["o_hi"]))], {0: idlist(a["lanelets"], False)})
+                                      orientation=AngleInterval(-1.0, a["o_hi"])),
+                       st.CustomState(time_step=Interval(3, 4))][:a["states"]], {0: idlist(a["lanelets"], False)})
 
 
-GOAL_ATTRS = dict(t_lo=("int", 0, 100), length=POS, o_hi=("real", 0.0, 3.0), lanelets=("ids", IDS))
+GOAL_ATTRS = dict(t_lo=("int", 0, 100), length=POS, o_hi=("real", 0.0, 3.0), lanelets=("ids", IDS), states=("enum", [1, 2]))
 
 
 @spec("GoalRegion", GOAL_ATTRS, default=lambda: GoalRegion([st.CustomState(time_step=Interval(0, 1))]))
@@ -313,9 +319,11 @@ def _(a, rev):
     return PlanningProblem(1, fx.init_state(0, a["x"], 0.0, 0.0, a["velocity"]), _goal(a))
 
 
-@spec("PlanningProblemSet", dict(GOAL_ATTRS, x=R), default=lambda: PlanningProblemSet())
+@spec("PlanningProblemSet", dict(GOAL_ATTRS, x=R, count=("enum", [1, 2])), default=lambda: PlanningProblemSet())
 def _(a, rev):
-    return PlanningProblemSet([PlanningProblem(1, fx.init_state(0, a["x"], 0.0, 0.0, 1.0), _goal(a))])
+    pps = [PlanningProblem(1, fx.init_state(0, a["x"], 0.0, 0.0, 1.0), _goal(a)),
+           PlanningProblem(2, fx.init_state(0, 5.0, 0.0, 0.0, 1.0), GoalRegion([st.CustomState(time_step=Interval(0, 9))]))][:a["count"]]
+    return PlanningProblemSet(pps[::-1] if rev else pps)
 
 
 @spec("ScenarioID", dict(cooperative=("bool",), map_id=("int", 1, 1000), configuration_id=("int", 1, 1000),
@@ -341,11 +349,13 @@ def _(a, rev):
     return Location(a["geo"], a["lat"], a["lon"], GeoTransformation("+proj=utm", a["x"], 0.0, 0.0, 1.0), Environment(Time(a["hours"], 30)))
 
 
-@spec("Scenario", dict(ly=R, ox=R, author=("enum", ["A", "B"])), default=lambda: Scenario(0.1))
+@spec("Scenario", dict(ly=R, ox=R, author=("enum", ["A", "B"]), obstacles=("enum", [1, 2])), default=lambda: Scenario(0.1))
 def _(a, rev):
     sc = Scenario(0.1, ScenarioID(), author=a["author"], tags=set(), affiliation="x", source="y", location=Location())
     sc.add_objects(Lanelet(np.array([[0.0, a["ly"]], [10.0, a["ly"]]]), np.array([[0.0, 0.0], [10.0, 0.0]]), np.array([[0.0, -2.0], [10.0, -2.0]]), 1))
     sc.add_objects(fx.static_obstacle(3, a["ox"], 0.0))
+    if a["obstacles"] == 2:
+        sc.add_objects(fx.static_obstacle(4, 9.0, 0.0))
     return sc
 
 
